@@ -138,8 +138,10 @@ def classify_size(tok):
 
 _ts_canon = re.compile(
     r'\A([0-9]{4})-([0-9]{2})-([0-9]{2})T([0-9]{2}):([0-9]{2}):([0-9]{2})Z\Z')
+# loosely padded fields, and lower-case t/z (strptime matches literals
+# case-insensitively): accepted by some parsers, DONT-CARE
 _ts_loose = re.compile(
-    r'\A(\d{1,4})-(\d{1,2})-(\d{1,2})T(\d{1,2}):(\d{1,2}):(\d{1,2})Z\Z')
+    r'\A(\d{1,4})-(\d{1,2})-(\d{1,2})[Tt](\d{1,2}):(\d{1,2}):(\d{1,2})[Zz]\Z')
 
 
 def classify_timestamp(tok):
